@@ -7,7 +7,7 @@
 //	c10 idl                                            print the aimed program
 //
 // Ops sent to BOTH the generated code and the Lean model (tv_c10): FW, BL, FN, FR, FO, SK.
-// Ops answered by the generated code only (oracle): W, R, FE, RE.
+// Ops answered by the generated code only (oracle): RG (= R over a guarded transport), FE, RE.
 package main
 
 import (
@@ -343,7 +343,7 @@ func addRead(ls *lineSet, c check, key string, in []byte) {
 	h := hx(in)
 	rc := c
 	rc.toModel, rc.pair, rc.class = false, -1, "R"
-	ri := ls.add("R "+key+" "+h, &rc)
+	ri := ls.add("RG "+key+" "+h, &rc)
 	fc := c
 	fc.toModel, fc.pair = true, ri
 	ls.add("FR "+key+" "+h, &fc)
